@@ -16,13 +16,10 @@ partial injective mappings (search-tree nodes) times a constant.
 namespace PetgraphModel.C13.Vf2
 open PetgraphModel
 
-/-- loop iterations needed to work off an `Outer` frame when `k` nodes of g0 are still unmapped -/
-def outerCost (n0 n1 : Nat) : Nat → Nat
-  | 0 => 1
-  | k + 1 => 1 + (n1 - (n0 - (k + 1))) * (2 + outerCost n0 n1 k)
-
-/-- a fuel that suffices for every `next()` call on the instance -/
-def explicitBound (I : Inst) : Nat := outerCost I.g0.n I.g1.n I.g0.n + 1
+/- `outerCost` (loop iterations needed to work off an `Outer` frame when `k` nodes of g0 are still unmapped:
+`outerCost 0 = 1`, `outerCost (k+1) = 1 + (n1 - (n0 - (k+1))) * (2 + outerCost k)`) and
+`explicitBound I = outerCost n0 n1 n0 + 1` (a fuel that suffices for every `next()` call on the instance) are
+defined in `Model/C13Vf2Side.lean`. -/
 
 /-- number of target nodes `x` with `b ≤ x < n1` that are not in `bs` -/
 def freeFrom (n1 : Nat) (bs : List Nat) (b : Nat) : Nat :=
